@@ -7,6 +7,8 @@ import MosnVerif.Model.HpackTable
 import MosnVerif.Model.H2Seq
 import MosnVerif.Model.HpackEmit
 import MosnVerif.Drive.C18Limits
+import MosnVerif.Drive.C18Huff
+import MosnVerif.Drive.C18Fpay
 /-! `mosnmodel` side of C18 (core Lean only): evaluates the models on each case line and the executable property
 predicates on the implementation's output. -/
 namespace MosnVerif.Drive.C18
@@ -667,6 +669,10 @@ def run (caseToks impl : List String) : String :=
   | ["hdrcut", items] => hdrCutCase items impl
   | ["frames", dir, mal, _, specs] => framesCase dir mal specs impl
   | "lim" :: rest => MosnVerif.Drive.C18Limits.run rest impl
+  | "fpay" :: rest => MosnVerif.Drive.C18Fpay.run rest impl
+  | ["hufftree", _] => MosnVerif.Drive.C18Huff.huffTreeCase impl
+  | ["huff", m, h] => MosnVerif.Drive.C18Huff.huffCase m h impl
+  | ["huffenc", h] => MosnVerif.Drive.C18Huff.huffEncCase h impl
   | _ => "E E unknown-kind"
 
 end MosnVerif.Drive.C18
